@@ -109,6 +109,33 @@ fn lin_case2(m: &LinearModel, mut tags: Vec<String>, profile: u8) -> (Case, Opti
     c.imp = format!("(ok {})", sx::q(&text));
     c.show = format!("LinearModel: {}", text.replace('\n', " | "));
     c.nontrivial = !m.constraints().is_empty();
+    // which branches of the printer does the model reach?
+    let coefs: Vec<f64> = m.objective().iter().cloned().chain(m.constraints().iter().flat_map(|r| r.coefficients().iter().cloned())).collect();
+    if coefs.iter().any(|c| c.abs() == 1.0) { tags.push("lin-unit-coefficient".into()); }
+    if coefs.iter().any(|c| *c < 0.0 && *c <= -1e-5) { tags.push("lin-negative-coefficient".into()); }
+    if m.constraints().iter().any(|r| r.coefficients().iter().all(|c| *c == 0.0)) { tags.push("lin-zero-lhs".into()); }
+    if m.objective().iter().all(|c| *c == 0.0) { tags.push("lin-zero-objective".into()); }
+    if m.constraints().iter().any(|r| r.rhs() == 0.0) { tags.push("lin-zero-rhs".into()); }
+    if m.constraints().iter().any(|r| r.rhs() < 0.0) { tags.push("lin-negative-rhs".into()); }
+    if m.constraints().iter().any(|r| r.name().is_empty()) { tags.push("lin-unnamed-row".into()); }
+    if m.constraints().iter().any(|r| !r.name().is_empty()) { tags.push("lin-named-row".into()); }
+    let off = m.objective_offset();
+    tags.push(if off == 0.0 { "lin-offset-zero".into() } else if off <= -1e-5 { "lin-offset-negative".into() } else if off < 0.0 { "lin-offset-tiny-negative".into() } else { "lin-offset-positive".to_string() });
+    if m.variables().iter().any(|v| v.starts_with('$')) { tags.push("lin-aux-name".into()); }
+    if m.variables().iter().any(|v| v.contains('_') && !v.starts_with('$')) { tags.push("lin-indexed-name".into()); }
+    let mut tys: Vec<String> = vec![];
+    for d in m.domain().values() {
+        let t = d.get_type().to_string();
+        tags.push(match d.get_type() {
+            VariableType::Boolean => "lin-dom-boolean".into(),
+            VariableType::IntegerRange(..) => "lin-dom-int".into(),
+            VariableType::NonNegativeReal(a, b) => if *a == 0.0 && *b == f64::INFINITY { "lin-dom-nnreal-default".into() } else if b.is_infinite() { "lin-dom-nnreal-inf".into() } else { "lin-dom-nnreal-tight".to_string() },
+            VariableType::Real(a, b) => if a.is_infinite() && b.is_infinite() { "lin-dom-real-free".into() } else if a.is_infinite() || b.is_infinite() { "lin-dom-real-halfinf".into() } else { "lin-dom-real-tight".to_string() },
+        });
+        if tys.contains(&t) { tags.push("lin-dom-grouped".into()); }
+        tys.push(t);
+    }
+    tags.push(format!("lin-sense-{}", sx::opt_type(m.optimization_type())));
     let in_range = lin_in_range(m);
     tags.push(if in_range { "in-stated-range".into() } else { "outside-stated-range".to_string() });
     let tiny_neg = m.objective().iter().chain(m.constraints().iter().flat_map(|r| r.coefficients().iter())).any(|c| *c < 0.0 && *c > -1e-5);
@@ -407,6 +434,15 @@ pub fn generate(seed: u64, n: usize, thorough: bool, corpus: Option<&str>) -> Ve
         m.add_constraint(vec![1e22], Comparison::LessOrEqual, 1.0);
         m.set_objective(vec![1.0], OptimizationType::Min);
         cases.push(lin_case(&m, vec!["seed-1e22-record-only".into()], true));
+    }
+    // `Display` indexes `self.variables[i]`: a non-zero coefficient beyond the variable list panics (only
+    // reachable through `new_from_parts`); zero coefficients beyond it do not
+    for cs in [vec![1.0, 0.0, 3.0], vec![1.0, 0.0, 0.0]] {
+        let mut d = IndexMap::new();
+        d.insert("x".to_string(), DomainVariable::new(VariableType::Boolean, InputSpan::default()));
+        let m = LinearModel::new_from_parts(vec![1.0], OptimizationType::Min, 0.0,
+            vec![rooc::LinearConstraint::new(cs, Comparison::LessOrEqual, 1.0)], vec!["x".into()], d);
+        cases.push(lin_case(&m, vec!["seed-coefficients-beyond-variables".into()], false));
     }
     // --- (i) Exp Display: exhaustive small trees + random trees
     let leaves = vec![Exp::Number(2.0), Exp::Number(-1.5), Exp::Variable("x".into()), Exp::Variable("$abs_0".into())];
